@@ -122,9 +122,9 @@ Proof.
   intros G H q. rewrite pget_pset. destruct (Nat.eqb p q); [intros E; inversion E; auto|apply G].
 Qed.
 
-Lemma ghostinv_step c s l s' z : ghostinv c s -> step c s l = Some (s', z) -> ghostinv c s'.
+Lemma ghostinv_step c s l s' z : corrupt s = [] -> ghostinv c s -> step c s l = Some (s', z) -> ghostinv c s'.
 Proof.
-  intros I H. revert I. unfold ghostinv. revert H.
+  intros NF I H. revert I. unfold ghostinv. revert H.
   step_cases; intros (G1 & G2 & G3 & G4 & G5 & G6);
   (split; [|split; [|split; [|split; [|split]]]]);
   try assumption;
@@ -139,10 +139,10 @@ Proof.
         first [ right; first [eapply notin_acc_none; eassumption | eapply notin_acc_some; [eassumption|eassumption|reflexivity]]
               | left; unfold accepted_pstate; first [solve [eauto 7] | right; right; right; split; [reflexivity|eapply G5; eassumption]]]]);
   try (intros q; rewrite pget_pset; destruct (Nat.eqb _ _); [intros E; first [reflexivity|inversion E] | apply G5]).
-  1: { rewrite Heql2. exact G1. }
+  all: try (match goal with H : items _ = [] |- _ => rewrite H end; exact G1).
   all: try (simpl; etransitivity; [symmetry; apply Permutation_cons_append|apply Permutation_cons_app; exact G2]).
-  all: rewrite map_app, <- app_assoc; simpl; (etransitivity; [exact G2|]);
-       apply Permutation_app_head; eapply perm_remove; eassumption.
+  all: try (rewrite map_app, <- app_assoc; simpl; (etransitivity; [exact G2|]);
+       apply Permutation_app_head; eapply perm_remove; eassumption).
 Qed.
 
 (* ---- D. wait-for-result and context errors ------------------------------------------------------------ *)
